@@ -25,6 +25,7 @@ def main():
             cnt = s.count(m["old"])
             if cnt == 0:
                 results.append((m["name"], "STALE (pattern not found)"))
+                print("%-40s %s" % results[-1], flush=True)
                 continue
             nth = m.get("nth", 0)
             if nth == "all":
